@@ -12,7 +12,7 @@ RULE = ('single rules from the AST generator (literal and wildcard segments, int
         'resolving instantiated and mutated paths (digit strings with leading zeros, signs, long and fractional floats, empty '
         'captures, non-ASCII, CR). Non-trivial = the rule has at least one wildcard and the path matched; distinct = distinct (rule text, path).')
 PYOPT = {'quick': 1, 'thorough': 1}     # one unit of every kind is also served by an interpreter started with -O (assert statements compiled out)
-REQUIRED = ['units_run_under_python_-O', 'roundtrips', 'with_int', 'with_float', 'with_re', 'with_path', 'with_anonymous_positional', 'adjacent_wildcards',
+REQUIRED = ['units_run_under_python_-O', 'keywords_in_another_order', 'built_under_a_narrow_decimal_context', 'roundtrips', 'with_int', 'with_float', 'with_re', 'with_path', 'with_anonymous_positional', 'adjacent_wildcards',
             'path_followed_by_literal', 'float_needing_positional_notation', 'literals_checked', 'static_rules']
 ASSUMPTIONS = ['parameters are exactly those produced by matching (the statement); float digit strings are at most 30 characters',
                'excluded: a number not in canonical spelling that follows a path/re wildcard in the rule (re-spelling it can move the earlier open-ended match; no builder can prevent that), and a negative zero directly after another wildcard',
@@ -161,6 +161,29 @@ def one_rule(ctx, rng, ast, text, paths, forced=False):
         if not isinstance(url, str):
             ctx.violation('url()-returns-non-str', f'{where}: {url!r}', wit)
             continue
+        # the built URL is a function of the rule and the values: not of the order the keywords are written in,
+        # nor of the calling thread's decimal context
+        if len(named) > 1:
+            ctx.count('keywords_in_another_order')
+            try:
+                url_r = route.url(*args, **dict(reversed(list(named.items()))))
+            except Exception as e:  # noqa
+                url_r = f'<raised {e!r}>'
+            if url_r != url:
+                ctx.violation('built-url-depends-on-keyword-order', f'{where}: url {url!r}, with the keywords reversed {url_r!r}', wit)
+                continue
+        if any(it[2] == 'float' for it in wilds):
+            import decimal
+            ctx.count('built_under_a_narrow_decimal_context')
+            with decimal.localcontext() as dc:
+                dc.prec = 5
+                try:
+                    url_d = route.url(*args, **named)
+                except Exception as e:  # noqa
+                    url_d = f'<raised {e!r}>'
+            if url_d != url:
+                ctx.violation('built-url-depends-on-the-decimal-context', f'{where}: url {url!r}, under decimal precision 5 {url_d!r}', wit)
+                continue
         ctx.count('literals_checked')
         if not literals_in_order(ast, url):
             ctx.violation('rule-literals-not-verbatim-in-built-url', f'{where}: url {url!r}', wit)
@@ -183,7 +206,10 @@ def one_rule(ctx, rng, ast, text, paths, forced=False):
 
 
 FORCED = [
-    ([['lit', 'f/'], ['wild', 'f', 'float', None]], ['f/0.00001', 'f/12345678901234567890000', 'f/-0.0000001', 'f/1.5', 'f/-0', 'f/007.50', 'f/123456789.123456789']),
+    ([['lit', 'f/'], ['wild', 'f', 'float', None]], ['f/0.00001', 'f/12345678901234567890000', 'f/-0.0000001', 'f/1.5', 'f/-0', 'f/007.50', 'f/123456789.123456789',
+                                                                 'f/0.0000123456789', 'f/123456789012345678', 'f/-0.00000987654321']),
+    ([['lit', 'item/'], ['wild', 'id', 'int', None], ['lit', '/'], ['wild', 'slug', None, None]], ['item/12/intro', 'item/-7/x']),
+    ([['lit', 'plot/'], ['wild', 'x', 'float', None], ['lit', '/'], ['wild', 'n', 'int', None], ['lit', '/'], ['wild', 't', None, None]], ['plot/2.5/3/a', 'plot/0.000012345678/-1/b']),
     ([['lit', 'p/'], ['wild', 'p', 'path', None], ['lit', '/end']], ['p/a/b/end', 'p/x/end', 'p/a/end/b/end', 'p//end']),
     ([['lit', 'p/'], ['wild', 'p', 'path', None]], ['p/a/b', 'p/é/1', 'p/a//b/']),
     ([['lit', 'p/'], ['wild', 'p', 'path', None], ['wild', 'n', 'int', None]], ['p/a/b7', 'p/x/-12']),
